@@ -49,7 +49,8 @@ def valuecount(table, field, value, missing=None):
         total += 1
         if v == value:
             vs += 1
-    return vs, float(vs)/total
+    # a table without data rows: the value occurs 0 times, with frequency 0
+    return vs, (float(vs)/total if total else 0.)
 
 
 Table.valuecount = valuecount
